@@ -1,9 +1,507 @@
 package main
 
 import (
+	"bytes"
+	"encoding/base64"
+	"encoding/json"
+	"fmt"
+	"os"
+	"path/filepath"
+	"runtime"
+	"sort"
+	"strconv"
+	"strings"
+	"time"
+
+	"github.com/pgavlin/dawn/pickle"
 	"github.com/pgavlin/dawn/verifharness/core"
+	"github.com/pgavlin/dawn/verifharness/pj"
+	"go.starlark.net/starlark"
 )
 
-// placeholders, replaced below once the record-corruption part is written
-func realStamps(c *core.Ctx) [][]byte { return nil }
-func c15Records(c *core.Ctx)          {}
+func init() { registerCase("c15rec", c15RecCase) }
+
+const c15Build = `K = 300
+D = {"a": [1, 2.5, "s"], "b": (None, True)}
+def helper(x, d=7):
+    return [x, d, K]
+def fact(n):
+    return 1 if n <= 1 else n * fact(n - 1)
+def mk(n):
+    def inner():
+        return [n, D]
+    return inner
+cl = mk(5)
+@target(sources=["s.txt"], generates=["out/a.txt"])
+def a(self):
+    """Builds a."""
+    v.body("//:a", [K, helper(1), fact(4), cl()], ["s.txt"], "out/a.txt")
+@target(deps=[":a"], sources=["out/a.txt", "dir"], generates=["out/b.txt"])
+def b(self):
+    v.body("//:b", [D, len([1])], ["out/a.txt", "dir"], "out/b.txt")
+@target(deps=[":a", ":b"])
+def all(self):
+    v.body("//:all", [0], ["out/a.txt", "out/b.txt"], "")
+`
+
+// c15Base builds the reference project once (per process) and returns its session directory.
+func c15Base(scratch string) (string, error) {
+	dir := filepath.Join(scratch, fmt.Sprintf("c15base-%d", os.Getpid()))
+	if _, err := os.Stat(filepath.Join(dir, "ok")); err == nil {
+		return dir, nil
+	}
+	os.RemoveAll(dir)
+	s := pj.NewSession(dir)
+	os.WriteFile(filepath.Join(s.Root, "dawn.toml"), []byte("name = \"c15\"\n"), 0o644)
+	os.WriteFile(filepath.Join(s.Root, "BUILD.dawn"), []byte(c15Build), 0o644)
+	os.WriteFile(filepath.Join(s.Root, "s.txt"), []byte("source\n"), 0o644)
+	os.MkdirAll(filepath.Join(s.Root, "dir"), 0o755)
+	os.WriteFile(filepath.Join(s.Root, "dir", "x.txt"), []byte("x\n"), 0o644)
+	for i := 0; i < 2; i++ {
+		res := pj.Build(pj.BuildReq{Root: s.Root, Target: "//:all"})
+		if res.LoadErr != "" || res.RunErr != "" {
+			return "", fmt.Errorf("base build: %s%s", res.LoadErr, res.RunErr)
+		}
+	}
+	os.WriteFile(filepath.Join(dir, "ok"), nil, 0o644)
+	return dir, nil
+}
+
+func recordFiles(root string) []string {
+	var out []string
+	for rel := range pj.Records(root) {
+		out = append(out, rel)
+	}
+	sort.Strings(out)
+	return out
+}
+
+// realStamps returns the pickled function environments of a built project.
+func realStamps(c *core.Ctx) [][]byte {
+	dir, err := c15Base(c.Scratch)
+	if err != nil {
+		return nil
+	}
+	var out [][]byte
+	recs := pj.Records(filepath.Join(dir, "tree"))
+	for _, rel := range recordFiles(filepath.Join(dir, "tree")) {
+		if strings.HasPrefix(rel, "targets/") {
+			if b, err := base64.StdEncoding.DecodeString(recs[rel].Stamp); err == nil && len(b) > 0 && len(b) < 1500 {
+				out = append(out, b)
+			}
+		}
+	}
+	return out
+}
+
+// ---- mirror of dawn's environment unpickler (to decide semantic equality of stamps) ----------
+
+func assocDict(v starlark.Value) starlark.Value {
+	pairs, ok := v.(starlark.Tuple)
+	if !ok {
+		return starlark.None
+	}
+	d := starlark.NewDict(len(pairs))
+	for _, pv := range pairs {
+		p := pv.(starlark.Tuple)
+		d.SetKey(p[0].(starlark.String), p[1])
+	}
+	return d
+}
+
+func mirrorUnpickler(module, name string, args starlark.Tuple) (v starlark.Value, err error) {
+	defer func() {
+		if r := recover(); r != nil {
+			err = fmt.Errorf("malformed arguments for %s.%s: %v", module, name, r)
+		}
+	}()
+	if module != "dawn" {
+		return nil, fmt.Errorf("cannot unpickle %s.%s", module, name)
+	}
+	switch name {
+	case "Target":
+		if len(args) != 1 {
+			return nil, fmt.Errorf("arity")
+		}
+		return args[0], nil
+	case "Recursive":
+		if len(args) != 1 {
+			return nil, fmt.Errorf("arity")
+		}
+		return starlark.Tuple{starlark.String("recursive reference"), args[0]}, nil
+	case "Builtin":
+		if len(args) > 1 {
+			return nil, fmt.Errorf("arity")
+		}
+		return args, nil
+	case "FunctionCode":
+		if len(args) != 3 {
+			return nil, fmt.Errorf("arity")
+		}
+		m := args[0].(starlark.Tuple)
+		d := starlark.NewDict(7)
+		d.SetKey(starlark.String("names"), m[0])
+		d.SetKey(starlark.String("constant values"), m[1])
+		d.SetKey(starlark.String("predeclared values"), assocDict(m[2]))
+		d.SetKey(starlark.String("universal values"), assocDict(m[3]))
+		d.SetKey(starlark.String("function values"), m[4])
+		d.SetKey(starlark.String("global values"), assocDict(args[1]))
+		d.SetKey(starlark.String("code"), args[2])
+		return d, nil
+	case "Function":
+		if len(args) != 3 {
+			return nil, fmt.Errorf("arity")
+		}
+		fc := args[2].(*starlark.Dict)
+		fc.SetKey(starlark.String("default parameter values"), assocDict(args[0]))
+		fc.SetKey(starlark.String("free variables"), assocDict(args[1]))
+		return fc, nil
+	}
+	return nil, fmt.Errorf("cannot unpickle %s.%s", module, name)
+}
+
+func mirrorEnv(stamp string) (starlark.Value, error) {
+	if stamp == "" {
+		return starlark.None, nil
+	}
+	raw, err := base64.StdEncoding.DecodeString(stamp)
+	if err != nil {
+		return nil, err
+	}
+	v, err := pickle.NewDecoder(bytes.NewReader(raw), pickle.UnpicklerFunc(mirrorUnpickler)).Decode()
+	if err != nil {
+		return nil, err
+	}
+	if v == nil {
+		return nil, fmt.Errorf("decoder returned nothing")
+	}
+	return v, nil
+}
+
+// semanticallyEqual: would a correct dawn treat the corrupted record exactly like the original?
+func semanticallyEqual(orig, corrupted []byte, isTarget bool) (bool, string) {
+	var a, b pj.Record
+	if err := json.NewDecoder(bytes.NewReader(orig)).Decode(&a); err != nil {
+		return false, "original unreadable"
+	}
+	if err := json.NewDecoder(bytes.NewReader(corrupted)).Decode(&b); err != nil {
+		return false, "corrupted record is not valid JSON: " + err.Error()
+	}
+	if a.Rerun != b.Rerun {
+		return false, "rerun flag differs"
+	}
+	if fmt.Sprint(a.Dependencies) != fmt.Sprint(b.Dependencies) {
+		return false, "dependency stamps differ"
+	}
+	if a.Stamp == b.Stamp {
+		return true, ""
+	}
+	if !isTarget {
+		return false, "source stamp differs"
+	}
+	ea, err1 := mirrorEnv(a.Stamp)
+	eb, err2 := mirrorEnv(b.Stamp)
+	if err1 != nil || err2 != nil {
+		return false, fmt.Sprintf("stamp does not decode: %v", err2)
+	}
+	eq, err := starlark.EqualDepth(ea, eb, 1000)
+	if err != nil || !eq {
+		return false, "decoded environment differs"
+	}
+	return true, ""
+}
+
+// ---- corruption specs -------------------------------------------------------------------------
+
+// corruptRecord applies spec to the raw record; ok=false if the spec does not apply.
+func corruptRecord(raw []byte, kind string, p1, p2 int) ([]byte, bool) {
+	var rec map[string]json.RawMessage
+	json.Unmarshal(raw, &rec)
+	stampBytes := func() []byte {
+		var s string
+		if json.Unmarshal(rec["stamp"], &s) != nil {
+			return nil
+		}
+		b, err := base64.StdEncoding.DecodeString(s)
+		if err != nil {
+			return nil
+		}
+		return b
+	}
+	withStamp := func(pk []byte) []byte {
+		q, _ := json.Marshal(base64.StdEncoding.EncodeToString(pk))
+		rec["stamp"] = q
+		out, _ := json.Marshal(rec)
+		return append(out, '\n')
+	}
+	switch kind {
+	case "jtrunc":
+		if p1 >= len(raw) {
+			return nil, false
+		}
+		return raw[:p1], true
+	case "jsub":
+		if p1 >= len(raw) || raw[p1] == byte(p2) {
+			return nil, false
+		}
+		out := append([]byte(nil), raw...)
+		out[p1] = byte(p2)
+		return out, true
+	case "jwhole":
+		bodies := []string{"", "null\n", "[]\n", "{}\n", "{\"stamp\": 5}\n", "{\"dependencies\": []}\n", "{\"stamp\": \"!!!not-base64!!!\"}\n",
+			"{\"stamp\": \"AAAA\"}\n", "{\"rerun\": \"yes\"}\n", "\x00\x00\x00\x00", "{\"stamp\": \"Ti4=\"}\n", "{\"doc\": {\"a\": 1}}\n", "42\n", "\"str\"\n"}
+		if p1 >= len(bodies) {
+			return nil, false
+		}
+		return []byte(bodies[p1]), true
+	case "ssub":
+		pk := stampBytes()
+		if pk == nil || p1 >= len(pk) || pk[p1] == byte(p2) {
+			return nil, false
+		}
+		pk[p1] = byte(p2)
+		return withStamp(pk), true
+	case "strunc":
+		pk := stampBytes()
+		if pk == nil || p1 >= len(pk) {
+			return nil, false
+		}
+		return withStamp(pk[:p1]), true
+	case "ssplice":
+		pk := stampBytes()
+		if pk == nil || len(pk) < 2 {
+			return nil, false
+		}
+		body := pk[:len(pk)-1] // without STOP
+		switch p1 {
+		case 0: // an extra key in the environment dict
+			return withStamp(append(append([]byte(nil), body...), '(', 0x8c, 2, 'z', 'z', 'N', 'u', '.')), true
+		case 1: // every key removed but an unknown one: wrap into a fresh dict
+			return withStamp([]byte{'}', '(', 0x8c, 2, 'z', 'z', 'N', 'u', '.'}), true
+		case 2: // not a dict at all
+			return withStamp([]byte{'K', 5, '.'}), true
+		case 3: // an empty dict
+			return withStamp([]byte{'}', '.'}), true
+		case 4: // first TUPLE3 becomes TUPLE2
+			if i := bytes.IndexByte(body, 0x87); i >= 0 {
+				out := append([]byte(nil), pk...)
+				out[i] = 0x86
+				return withStamp(out), true
+			}
+		case 5: // a dawn.FunctionCode whose module element is not a tuple
+			return withStamp([]byte{0x8c, 4, 'd', 'a', 'w', 'n', 0x8c, 12, 'F', 'u', 'n', 'c', 't', 'i', 'o', 'n', 'C', 'o', 'd', 'e', 0x93, 'N', 'N', 'N', 0x87, 0x81, '.'}), true
+		case 6: // a dawn.Function whose code is not a dict
+			return withStamp([]byte{0x8c, 4, 'd', 'a', 'w', 'n', 0x8c, 8, 'F', 'u', 'n', 'c', 't', 'i', 'o', 'n', 0x93, ')', ')', 'N', 0x87, 0x81, '.'}), true
+		case 7: // a FunctionCode with a too short module tuple
+			return withStamp([]byte{0x8c, 4, 'd', 'a', 'w', 'n', 0x8c, 12, 'F', 'u', 'n', 'c', 't', 'i', 'o', 'n', 'C', 'o', 'd', 'e', 0x93, ')', 0x85, ')', 'N', 0x87, 0x81, '.'}), true
+		case 8: // association list with a non-string name
+			return withStamp([]byte{0x8c, 4, 'd', 'a', 'w', 'n', 0x8c, 8, 'F', 'u', 'n', 'c', 't', 'i', 'o', 'n', 0x93, 'K', 1, 'K', 2, 0x86, 0x85, ')', '}', 0x87, 0x81, '.'}), true
+		case 9: // STOP on an empty stack
+			return withStamp([]byte{'.'}), true
+		case 10: // a leaked mark as the value
+			return withStamp([]byte{'(', '.'}), true
+		}
+		return nil, false
+	case "depstamp":
+		var deps map[string]string
+		if json.Unmarshal(rec["dependencies"], &deps) != nil || len(deps) == 0 {
+			return nil, false
+		}
+		keys := make([]string, 0, len(deps))
+		for k := range deps {
+			keys = append(keys, k)
+		}
+		sort.Strings(keys)
+		k := keys[p1%len(keys)]
+		switch p2 {
+		case 0:
+			deps[k] = deps[k] + "x"
+		case 1:
+			delete(deps, k)
+		default:
+			deps[k] = ""
+		}
+		q, _ := json.Marshal(deps)
+		rec["dependencies"] = q
+		out, _ := json.Marshal(rec)
+		return append(out, '\n'), true
+	}
+	return nil, false
+}
+
+func labelOfRecord(rel string) string {
+	// targets/%2Fa -> //:a ; sources/out%2Fa.txt -> source://out:a.txt
+	parts := strings.SplitN(rel, "/", 2)
+	name := strings.ReplaceAll(parts[1], "%2F", "/")
+	i := strings.LastIndex(name, "/")
+	pkg, n := name[:i], name[i+1:]
+	if parts[0] == "sources" {
+		return "source://" + pkg + ":" + n
+	}
+	return "//" + pkg + ":" + n
+}
+
+// c15RecCase: id = rec/<fileIndex>/<kind>/<p1>/<p2>  or  idx/<kind>/<p1>/<p2>
+func c15RecCase(c *core.Ctx, id string) {
+	base, err := c15Base(c.Scratch)
+	if err != nil {
+		c.Inconclusive("base project: " + err.Error())
+		return
+	}
+	parts := strings.Split(id, "/")
+	work := filepath.Join(c.Scratch, fmt.Sprintf("c15w-%d", os.Getpid()))
+	os.RemoveAll(work)
+	defer os.RemoveAll(work)
+	pj.CopyDir(base, work)
+	s := pj.NewSession(work)
+	files := recordFiles(s.Root)
+	var path, rel string
+	var raw, corrupted []byte
+	preferIndex := false
+	ok := false
+	if parts[0] == "idx" {
+		preferIndex = true
+		rel = "index.json"
+		path = filepath.Join(s.Root, ".dawn", "build", "index.json")
+		raw, _ = os.ReadFile(path)
+		p1, _ := strconv.Atoi(parts[2])
+		p2, _ := strconv.Atoi(parts[3])
+		corrupted, ok = corruptRecord(raw, parts[1], p1, p2)
+	} else {
+		fi, _ := strconv.Atoi(parts[1])
+		if fi >= len(files) {
+			return
+		}
+		rel = files[fi]
+		path = filepath.Join(s.Root, ".dawn", "build", rel)
+		raw, _ = os.ReadFile(path)
+		p1, _ := strconv.Atoi(parts[3])
+		p2, _ := strconv.Atoi(parts[4])
+		corrupted, ok = corruptRecord(raw, parts[2], p1, p2)
+	}
+	if !ok {
+		return
+	}
+	os.WriteFile(path, corrupted, 0o644)
+	from := s.LogLen()
+	res := pj.Build(pj.BuildReq{Root: s.Root, Target: "//:all", PreferIndex: preferIndex})
+	executed := map[string]bool{}
+	for _, le := range s.ReadLog(from) {
+		if le.Kind == "S" {
+			executed[le.Label] = true
+		}
+	}
+	outcome := ""
+	switch {
+	case res.LoadErr != "":
+		outcome = "load-error"
+	case res.RunErr != "":
+		outcome = "build-error"
+	case len(executed) > 0:
+		outcome = "re-executed"
+	default:
+		outcome = "nothing-executed"
+	}
+	c.Count("record_outcome:"+outcome, 1)
+	c.Count("corruption:"+strings.Split(id, "/")[len(parts)-3], 1)
+	key := id
+	viol := func(sym, why string) {
+		c.Violation(id, "", sym, map[string]any{"record": rel, "why": why, "original": string(raw), "corrupted": string(corrupted), "outcome": outcome, "executed": sortedKeys(executed), "error": res.LoadErr + res.RunErr})
+	}
+	if parts[0] != "idx" && (outcome == "nothing-executed" || outcome == "re-executed") {
+		lbl := labelOfRecord(rel)
+		isTarget := strings.HasPrefix(rel, "targets/")
+		same, why := semanticallyEqual(raw, corrupted, isTarget)
+		if same {
+			c.Count("record_semantically_equal_after_corruption", 1)
+			key = ""
+		} else {
+			// the record's own target (or, for a source, something depending on it) must have run
+			ran := executed[lbl]
+			if !isTarget {
+				ran = len(executed) > 0
+			}
+			if !ran {
+				viol("corrupted-record-silently-treated-as-up-to-date", why)
+			}
+		}
+	}
+	c.Eval(key)
+}
+
+// c15Records enumerates corruptions of every record of the reference project.
+func c15Records(c *core.Ctx) {
+	base, err := c15Base(c.Scratch)
+	if err != nil {
+		c.Inconclusive("base project: " + err.Error())
+		return
+	}
+	root := filepath.Join(base, "tree")
+	recs := pj.Records(root)
+	files := recordFiles(root)
+	var ids []string
+	add := func(id string) {
+		if c.Want(id) {
+			ids = append(ids, id)
+		}
+	}
+	r := c.Rand("records")
+	interesting := []int{'"', '{', '}', ':', ',', 'x', 0, ' ', '[', '0', 't', '\\', 0x80, '/'}
+	opcodes := []int{'(', '.', 'N', 'K', 'M', 'J', ']', 'a', 'e', ')', 0x85, 0x86, 0x87, 't', '}', 'u', 0x8c, 0x93, 0x81, 0x94, 'h', 0, 0xff, 'X', 'B'}
+	for fi, rel := range files {
+		raw := recs[rel].Raw
+		step := c.N(13, 1)
+		for n := 0; n < len(raw); n += step {
+			add(fmt.Sprintf("rec/%d/jtrunc/%d/0", fi, n))
+		}
+		nsub := c.N(25, 1500)
+		for k := 0; k < nsub; k++ {
+			add(fmt.Sprintf("rec/%d/jsub/%d/%d", fi, r.IntN(len(raw)), interesting[r.IntN(len(interesting))]))
+		}
+		for k := 0; k < 14; k++ {
+			add(fmt.Sprintf("rec/%d/jwhole/%d/0", fi, k))
+		}
+		for k := 0; k < 6; k++ {
+			add(fmt.Sprintf("rec/%d/depstamp/%d/%d", fi, k/3, k%3))
+		}
+		if strings.HasPrefix(rel, "targets/") {
+			pk, _ := base64.StdEncoding.DecodeString(recs[rel].Stamp)
+			ns := c.N(120, 12000)
+			for k := 0; k < ns && len(pk) > 0; k++ {
+				add(fmt.Sprintf("rec/%d/ssub/%d/%d", fi, r.IntN(len(pk)), opcodes[r.IntN(len(opcodes))]))
+			}
+			tstep := c.N(29, 1)
+			for n := 0; n < len(pk); n += tstep {
+				add(fmt.Sprintf("rec/%d/strunc/%d/0", fi, n))
+			}
+			for k := 0; k <= 10; k++ {
+				add(fmt.Sprintf("rec/%d/ssplice/%d/0", fi, k))
+			}
+		}
+	}
+	idx, _ := os.ReadFile(filepath.Join(root, ".dawn", "build", "index.json"))
+	for n := 0; n < len(idx); n += c.N(37, 3) {
+		add(fmt.Sprintf("idx/jtrunc/%d/0", n))
+	}
+	for k := 0; k < c.N(40, 2000); k++ {
+		add(fmt.Sprintf("idx/jsub/%d/%d", r.IntN(len(idx)), interesting[r.IntN(len(interesting))]))
+	}
+	for k := 0; k < 14; k++ {
+		add(fmt.Sprintf("idx/jwhole/%d/0", k))
+	}
+	c.Extra("record_files_corrupted", files)
+	c.Extra("record_corruption_cases", len(ids))
+	workers := runtime.NumCPU() - 2
+	if workers > 14 {
+		workers = 14
+	}
+	c.RunSharded(ids, core.ShardOpts{Mode: "c15rec", Workers: workers, Timeout: 20 * time.Minute, MaxDeaths: 40,
+		Died: func(caseID string, r *core.ChildResult) {
+			if r.TimedOut && r.FatalKind() == "" {
+				c.Inconclusive("record corruption " + caseID + ": watchdog fired")
+				return
+			}
+			c.Violation(caseID, "", "corrupted-record-crashes-the-process:"+r.FatalKind(), map[string]any{"stderr": headLinesStr(r.Stderr, 30)})
+		}})
+	c.Sample(map[string]any{"kind": "record corruption case ids", "value": []string{"rec/<record>/jtrunc/<len>", "rec/<record>/jsub/<pos>/<byte>", "rec/<record>/jwhole/<k>", "rec/<record>/ssub/<pos>/<byte> (inside the pickled stamp)", "rec/<record>/strunc/<len>", "rec/<record>/ssplice/<k>", "rec/<record>/depstamp/<k>/<how>", "idx/... (index.json with an index-preferring load)"}})
+}
